@@ -71,6 +71,9 @@ type Node struct {
 	guard    *guardBuf
 	// prefill != nil: decode() hands out receivers that these bytes were decoded into first
 	prefill []byte
+	// spareTail != nil: byte decoders get their input as a view with these bytes behind it
+	// in spare capacity (instead of an exact-capacity buffer in front of a guard page)
+	spareTail []byte
 	// KnownExamples holds the first scenario per open known finding this process met.
 	KnownExamples []*Replay
 }
